@@ -16,7 +16,8 @@ from harness import alpha, compare, core, gamma, shims, tlc, util
 KINDS_C04 = ["DeleteFile", "Truncate", "Extend", "InsertData", "RemoveData", "HeadCut", "HeadPad", "FabIdx", "FabNComp",
              "CellHIdx", "DropBoxLine", "DropFodLine", "GarbleBox", "GarbleFod", "NFieldsLine",
              "FodFile", "FodOffset", "BoxBound"]
-KINDS_C20 = KINDS_C04 + ["FabBlanks"]
+KINDS_C20 = KINDS_C04 + ["FabBlanks", "FodEarly"]
+EARLY = 8              # bytes by which a FodEarly position precedes the FAB header (one zero-valued cell of the preceding payload)
 INVS = ["AcceptsWellFormed", "RejectsDamaged", "AcceptedIsReadable", "NeverRaisesNoFail", "Emit"]
 HEAD_EDIT = 3          # bytes cut from / put in front of a FAB header line by HeadCut / HeadPad
 PATTERN = [1, 2, 1, 2]
@@ -175,6 +176,15 @@ def concretise(chk, sc, cfgseed, ndims, style=None):
             return p[off]
         return p[-1] + (off - (len(p) - 1)) * unit
 
+    # FodEarly: the bytes in front of the header become a zero-valued cell (reads as text without a line end)
+    for fl in st["fodlines"]:
+        if fl["k"] == "fod" and fl.get("early") and fl["file"] not in gone:
+            pth = os.path.join(ldir, gamma.file_name(fl["file"], cfg_))
+            pos_b = off_bytes(fl["file"], fl["off"])
+            if os.path.exists(pth) and EARLY <= pos_b <= os.path.getsize(pth):
+                with open(pth, "r+b") as bf:
+                    bf.seek(pos_b - EARLY)
+                    bf.write(b"\x00" * EARLY)
     z = ",".join("0" for _ in range(ndims))
     with open(os.path.join(ldir, "Cell_H"), "w") as c:
         c.write("1\n1\n%d\n0\n" % st["nfline"])
@@ -190,6 +200,8 @@ def concretise(chk, sc, cfgseed, ndims, style=None):
         for k, fl in enumerate(st["fodlines"]):
             if fl["k"] == "fod":
                 ob = off_bytes(fl["file"], fl["off"])
+                if fl.get("early"):
+                    ob = max(0, ob - EARLY)
                 txt = str(ob)
                 if style.get("offset_text") == "plus":
                     txt = "+" + txt
